@@ -2,7 +2,7 @@
    applied custom directives: the text of the schema printer model is the text
    the ASTPrinter model of C03 prints for [ast_of_schema], so the parser model
    of C01 reads it back (Proofs/PrinterSdlRoundtrip.v::sdl_roundtrip). *)
-From PyGql Require Import Lang.PrinterModel Spec.PrinterSpec Lang.Parser Spec.GrammarSpec
+From PyGql Require Import Lang.PrinterModel Spec.PrinterSpec Lang.Parser Spec.GrammarSpec Spec.SdlGrammarSpec
                           Proofs.PrinterRoundtrip Proofs.PrinterExecRoundtrip Proofs.PrinterSdlRoundtrip.
 From PyGql Require Import Schema.SdlSchema Schema.SdlBuild Schema.SdlPrint Spec.SdlRoundtripSpec
                           Proofs.SdlTextProofs.
@@ -959,4 +959,121 @@ Proof.
     + apply Forall_forall; intros x Hx. apply in_map_iff in Hx. destruct Hx as [a [<- Ha']].
       rewrite Forall_forall in Hf. apply (wf_iv_of a (Hf a Ha')).
     + apply Forall_forall; intros x Hx. apply in_map_iff in Hx. destruct Hx as [a [<- Ha']]. reflexivity.
+Qed.
+
+Definition doc_of (sc : schema) : document :=
+  Doc ((if schema_def_needed sc then [sdef_of sc] else [])
+       ++ map ddef1_of (sort_by dd_name (s_ddefs sc))
+       ++ map def1_of (sort_by tdef_name (s_types sc))) None.
+
+Lemma ast_of_schema_plain sc : plain_schema sc -> ast_of_schema sc = Ok (doc_of sc).
+Proof.
+  intros (Ht & Hd & Hr & Hne).
+  set (st := sort_by tdef_name (s_types sc)). set (sd := sort_by dd_name (s_ddefs sc)).
+  assert (Hst : Forall plain_tdef st) by (apply sort_by_Forall; exact Ht).
+  assert (Hsd : Forall plain_ddef sd) by (apply sort_by_Forall; exact Hd).
+  unfold ast_of_schema, doc_of. fold sd st.
+  assert (H1 : omap (def_of_ddef (env_of_schema [] sc)) sd = Ok (map ddef1_of sd)).
+  { clear -Hsd. induction Hsd as [|x l Hx Hl IH]; [reflexivity|]. cbn [omap map].
+    rewrite (def_of_ddef_plain _ x Hx). cbn [obind]. rewrite IH. reflexivity. }
+  assert (H2 : omap (def_of_tdef (env_of_schema [] sc)) st = Ok (map def1_of st)).
+  { clear -Hst. induction Hst as [|x l Hx Hl IH]; [reflexivity|]. cbn [omap map].
+    rewrite (def_of_tdef_plain _ x Hx). cbn [obind]. rewrite IH. reflexivity. }
+  rewrite H1, H2. cbn [obind]. destruct Hr as (Hn & _). unfold nodirs in Hn. rewrite Hn.
+  unfold sdef_of, ot_of. reflexivity.
+Qed.
+
+(* directive locations are the sixteen names of the grammar (the parser
+   accepts no others, so every schema built from SDL satisfies this) *)
+Definition valid_locations (sc : schema) : Prop :=
+  Forall (fun d => Forall (fun l => In l (map str_of_string directive_location_names)) (dd_locs d)) (s_ddefs sc).
+
+Lemma strip_ddef1_of d : strip_def (ddef1_of d) = ddef1_of d.
+Proof.
+  unfold ddef1_of. cbn [strip_def option_map mk_name strip_name n_val]. rewrite !map_map.
+  rewrite (map_ext _ iv_of) by (intros; apply strip_iv_of). reflexivity.
+Qed.
+
+Lemma wf_ddef1_of fv d :
+  plain_ddef d -> Forall (fun l => In l (map str_of_string directive_location_names)) (dd_locs d) ->
+  wf_fulldef fv (ddef1_of d).
+Proof.
+  intros (_ & Hn & Ha & Hne & _) Hl. unfold ddef1_of. cbn [wf_fulldef wf_sdef member_desc_free mk_name n_val].
+  repeat split.
+  - exact Hn.
+  - apply Forall_forall; intros x Hx. apply in_map_iff in Hx. destruct Hx as [a [<- Ha']].
+    rewrite Forall_forall in Ha. apply (wf_iv_of a (Ha a Ha')).
+  - destruct (dd_locs d); [congruence|discriminate].
+  - apply Forall_forall; intros x Hx. apply in_map_iff in Hx. destruct Hx as [l [<- Hl']].
+    rewrite Forall_forall in Hl. exact (Hl l Hl').
+  - apply Forall_forall; intros x Hx. apply in_map_iff in Hx. destruct Hx as [a [<- _]]. reflexivity.
+Qed.
+
+Lemma strip_sdef_of sc : strip_def (sdef_of sc) = sdef_of sc.
+Proof.
+  unfold sdef_of, ot_of. cbn [strip_def map].
+  destruct (s_query sc), (s_mutation sc), (s_subscription sc); reflexivity.
+Qed.
+
+Lemma wf_sdef_of fv sc : plain_roots sc -> wf_fulldef fv (sdef_of sc).
+Proof.
+  intros (_ & (q & Hq & Hvq) & Hm & Hs). unfold sdef_of. cbn [wf_fulldef wf_sdef member_desc_free].
+  rewrite Hq. split; [split; [constructor|split]|exact I].
+  - cbn [ot_of app]. constructor.
+    + eexists _, _. split; [reflexivity|exact Hvq].
+    + apply Forall_app; split.
+      * destruct (s_mutation sc) as [m|]; [|constructor]. repeat constructor.
+        eexists _, _. split; [reflexivity|apply Hm; reflexivity].
+      * destruct (s_subscription sc) as [m|]; [|constructor]. repeat constructor.
+        eexists _, _. split; [reflexivity|apply Hs; reflexivity].
+  - cbn [ot_of app]. discriminate.
+Qed.
+
+Lemma sort_by_nonempty {A} (key : A -> str) (l : list A) : l <> [] -> sort_by key l <> [].
+Proof.
+  destruct l as [|t0 ts]; [congruence|]. intros _ He.
+  assert (Hin : In t0 (sort_by key (t0 :: ts))) by (apply sort_by_in; left; reflexivity).
+  rewrite He in Hin. contradiction.
+Qed.
+
+Lemma sort_by_in_inv {A} (key : A -> str) (l : list A) x : In x (sort_by key l) -> In x l.
+Proof. intros H. apply sort_by_in in H. exact H. Qed.
+
+Lemma strip_doc_of sc : strip_doc (doc_of sc) = doc_of sc.
+Proof.
+  unfold strip_doc, doc_of. cbn [doc_defs]. f_equal. rewrite !map_app, !map_map. f_equal; [|f_equal].
+  - destruct (schema_def_needed sc); [|reflexivity]. cbn [map]. rewrite strip_sdef_of. reflexivity.
+  - apply map_ext. intros; apply strip_ddef1_of.
+  - apply map_ext. intros; apply strip_def1_of.
+Qed.
+
+Lemma wf_doc_of fv sc : plain_schema sc -> valid_locations sc -> wf_doc fv (doc_of sc).
+Proof.
+  intros (Ht & Hd & Hr & Hne) Hl. split.
+  - unfold doc_of. cbn [doc_defs]. intros He. apply app_eq_nil in He. destruct He as [_ He].
+    apply app_eq_nil in He. destruct He as [_ He]. apply map_eq_nil in He.
+    exact (sort_by_nonempty _ _ Hne He).
+  - unfold doc_of. cbn [doc_defs]. apply Forall_app; split; [|apply Forall_app; split].
+    + destruct (schema_def_needed sc); [|constructor]. constructor; [|constructor]. apply wf_sdef_of; exact Hr.
+    + apply Forall_forall; intros x Hx. apply in_map_iff in Hx. destruct Hx as [d [<- Hd']].
+      apply sort_by_in in Hd'. unfold valid_locations in Hl. rewrite Forall_forall in Hd, Hl. apply wf_ddef1_of; [apply Hd|apply Hl]; exact Hd'.
+    + apply Forall_forall; intros x Hx. apply in_map_iff in Hx. destruct Hx as [t [<- Ht']].
+      apply sort_by_in in Ht'. rewrite Forall_forall in Ht. apply wf_def1_of. apply Ht; exact Ht'.
+Qed.
+
+(* The text printed by the schema printer parses back to the declarative
+   AST of the schema (for the plain sub-language): composition of
+   print_is_print_ast with the C03 SDL round trip.                       *)
+Theorem text_parses_to_ast intro spec o fl sc text :
+  plain_schema sc -> valid_locations sc -> po_introspection o = false ->
+  no_location fl = true -> allow_type_system fl = true -> all_ws (po_indent o) ->
+  print_schema intro spec o sc = Ok text ->
+  parse_document fl text = Ok (doc_of sc) /\ ast_of_schema sc = Ok (doc_of sc).
+Proof.
+  intros Hp Hl Hi Hnl Hts Hws Hprint.
+  destruct (print_is_print_ast o intro spec sc Hp Hi) as (d & Hd & Ht).
+  rewrite (ast_of_schema_plain sc Hp) in Hd. injection Hd as <-.
+  rewrite Ht in Hprint. injection Hprint as <-. split; [|apply ast_of_schema_plain; exact Hp].
+  rewrite (sdl_roundtrip fl (po_indent o) (doc_of sc) Hnl Hts Hws (wf_doc_of _ sc Hp Hl)).
+  rewrite strip_doc_of. reflexivity.
 Qed.
